@@ -24,6 +24,9 @@ SLIVER_EPSILON = 1e-10
 # value are treated as degenerate (collinear points): the direction of their
 # normal is dominated by rounding errors of the vertex coordinates.
 DEGENERATE_SIN_SQR = 1e-20
+# Tetrahedra whose volume (times 6) is below this value times the cube of the
+# longest edge are treated as degenerate (coplanar points).
+DEGENERATE_VOLUME = 1e-12
 ALL_TRUE = np.array([True, True, True, True], dtype=np.dtype("bool"))
 
 
@@ -575,6 +578,15 @@ def origin_outside_of_tetrahedron_planes(a, b, c, d):
     signd2 = ac.dot(ad_cross_ab)  # C
     signd3 = -ab.dot(bd_cross_bc)  # A
     signd = np.array([signd0, signd1, signd2, signd3])
+
+    # The signed volumes of a nearly flat tetrahedron (e.g. with two almost
+    # coinciding vertices) are dominated by rounding errors: treat it as
+    # degenerate, relative to the length of its longest edge.
+    longest_edge_len_sq = max(
+        ab.dot(ab), ac.dot(ac), ad.dot(ad), bd.dot(bd), bc.dot(bc))
+    if np.max(np.abs(signd)) <= DEGENERATE_VOLUME * longest_edge_len_sq * math.sqrt(
+            longest_edge_len_sq):
+        return ALL_TRUE
 
     # The winding of all triangles has been chosen so that signd should have
     # the same sign for all components. If this is not the case the tetrahedron
